@@ -206,6 +206,9 @@ func (c *specCtx) bin(x *SExpr) Value {
 			eq = Eq(l.T, r.T)
 		case l.K == VSlice && r.K == VSlice:
 			eq = And(Eq(l.Ref, r.Ref), Eq(l.Off, r.Off), Eq(l.Len, r.Len), Eq(l.Cap, r.Cap))
+		case l.K == VU && r.K == VStr, l.K == VStr && r.K == VU:
+			// an interface value against a string: it holds (the boxing of) that very string
+			eq = Eq(c.e.box(l), c.e.box(r))
 		default:
 			c.errorf("spec: cannot compare %s", x.String())
 			eq = True
